@@ -291,7 +291,7 @@ TProj ==
         G12(b.out_cap = R.out_cap /\ b.in_cap = R.in_cap /\ b.n_in = R.n_in /\ b.n_out = R.n_out /\ b.ready = R.ready)
 
 TOther ==
-  /\ l <= Len(Rec) /\ Rec[l].ev \in {"forward", "claim", "fail", "fee", "tick", "block", "persist_mode", "restarted", "close", "open_extra"}
+  /\ l <= Len(Rec) /\ Rec[l].ev \in {"forward", "claim", "fail", "fee", "tick", "block", "persist_mode", "restarted", "close", "open_extra", "pause_flush", "flush"}
   /\ l' = l + 1 /\ Stutter
 
 \* ---- a channel opened while the run is in progress (C09: nothing that depends on the initial
